@@ -940,7 +940,7 @@ def replay(run, path):
     if kind == "classify":
         q = bytes.fromhex(inp["hex"])
         o = real_classify(binp, [q], r.get("settings"))[0]
-        im, doc = impl_obs(o), oracle.classify(q)
+        im, doc = impl_obs(o), (oracle.classify(q) if all(b < 128 for b in q) else None)
         print("replay: query %r -> implementation %s ; documented language %s" % (q, im, doc))
         bad = (im is not None and im[0] == "panic") or (all(b < 128 for b in q) and not same_class(im, doc)) or (not all(b < 128 for b in q) and im is not None)
         return 1 if bad else 0
